@@ -1,4 +1,5 @@
 import GeomV.C16.Lemmas
+import GeomV.C16.Gen
 /-!
 # C16 — property theorems
 
